@@ -1,6 +1,6 @@
 """check configuration for C05 (loaded by lib/zvprops.py)"""
 
-PROP = {'gen_tables': ['FrontEnds', 'TransCores', 'TransCEAdd', 'TransLogger'],
+PROP = {'gen_tables': ['FrontEnds', 'TransCores', 'TransCEAdd', 'TransLogger', 'TransCtor', 'TransLevel'],
  'rule': 'ops: one core tree (io/observer leaves with arbitrary enablers incl. static Level and shared AtomicLevels; nop, tee, IncreaseLevel, '
          'hooks, sampler, lazy-with, With anywhere) + a history of calls (level queries over all 256 levels, log calls through any front end, '
          'AtomicLevel changes). exhaustive: all 2^7 enablers on 6 shapes of depth ≤ 2 at every valid level, every front end on a fixed tree at '
